@@ -36,6 +36,21 @@ from vf.ref import t4_files as ref
 FSC_TABLE = (16, 24, 32, 40, 48, 64, 96, 128, 256)
 
 
+def exc_tag_sig(e):
+    """mechanism signature of an exception: type @ innermost frame inside nfc/tag (file:function), no line numbers.
+    (exceptions injected by the simulated device are raised below nfc.clf, which says nothing about the mechanism)"""
+    import traceback
+    best = None
+    for f in traceback.extract_tb(e.__traceback__):
+        fn = f.filename.replace("\\", "/")
+        if "/nfc/tag/" in fn and not fn.startswith("/verif/"):
+            best = "%s:%s" % (fn[fn.rfind("/nfc/") + 1:], f.name)
+    name = type(e).__name__
+    if isinstance(e, struct.error):          # the message only holds constants of the format string: keeps unpack sites apart
+        name = "struct.error(%s)" % str(e).replace("/", "-")
+    return "%s@%s" % (name, best or "?")
+
+
 def fs_of(fsi):
     return FSC_TABLE[fsi] if fsi <= 8 else 256
 
@@ -121,6 +136,7 @@ class T4TCard(object):
         self.fsd = 256
         self.cid = 0
         self.last_ins = None
+        self.resp_block_no = 0       # 1 = first block of the current response, 2.. = chain continuation
 
     # ---- discovery ----------------------------------------------------------------------------
     def target(self):
@@ -192,6 +208,7 @@ class T4TCard(object):
 
     def _next_iblock(self):
         c = self.tx.pop(0)
+        self.resp_block_no += 1
         more = bool(self.tx)
         self.blocks["tx_I_chain" if more else "tx_I"] += 1
         return bytes([0x02 | self.bn | (0x10 if more else 0)]) + c
@@ -228,6 +245,7 @@ class T4TCard(object):
                 return None
         m = self._chunk_size()
         self.tx = [rsp[i:i + m] for i in range(0, len(rsp), m)] or [b""]
+        self.resp_block_no = 0
         return self._send(self._next_iblock())
 
     def _rblock(self, pcb):
@@ -495,3 +513,66 @@ def make_card(lay, msg=b"", guard=0):
     card.ndef_fid = fid
     card.declared_size = lay["fsize"]
     return card
+
+
+# ---- conformance self-test: transcripts of /repo/tests/test_tag_tt4.py replayed against the card side ------------------
+def selftest():
+    """-> list of failure strings (empty = the card model agrees with the literal transcripts of the repository's tests)"""
+    H = bytes.fromhex
+    bad = []
+
+    def expect(name, got, want):
+        if got != want:
+            bad.append("%s: got %s, want %s" % (name, None if got is None else bytes(got).hex(), want.hex()))
+
+    # ATS of test_init_T4A / TestType4Tag.tag: 06 75 77 81 02 80
+    expect("ats", build_ats(5, 8, 1, ta=0x77, tb=True, tc=0x02, hist=b"\x80"), H("067577810280"))
+    # SENSB_RES layout of test_init_T4B (FSCI / FWI nibbles at [10] and [11])
+    c = T4TCard(kind="B", fsci=8, fwi=8)
+    expect("sensb", c.sensb_res[:5] + c.sensb_res[9:], H("5030702A1C") + H("008185"))
+    # test_is_present: R(NAK) block number 0 on a fresh card -> R(ACK) with the card's number 1
+    c = T4TCard(kind="A", fsci=5, fwi=8)
+    c.responder = lambda apdu: H("0203")
+    expect("rats", c.command(H("E080")), c.ats)
+    expect("presence", c.command(H("B2")), H("A3"))
+    # test_send_less_than_miu: block numbers 0, 1, 0
+    expect("i0", c.command(H("0201")), H("020203"))
+    expect("i1", c.command(H("030102")), H("030203"))
+    expect("i2", c.command(H("020102030405")), H("020203"))
+    # test_send_more_than_miu: chained I-block acknowledged, block number toggles per block
+    c.power_cycle()
+    c.command(H("E080"))
+    expect("chain-ack", c.command(H("120102030405")), H("A2"))
+    expect("chain-last", c.command(H("0306")), H("030203"))
+    # test_send_retransmit_after_ack / R(NAK) rules: lost I-block -> R(NAK)(0) -> R(ACK)(1); lost response -> retransmission
+    c.power_cycle()
+    c.command(H("E080"))
+    expect("rule12", c.command(H("B2")), H("A3"))
+    expect("after-rule12", c.command(H("020102")), H("020203"))
+    expect("rule11", c.command(H("B2")), H("020203"))
+    # test_send_recv_waiting_time_ext
+    c.power_cycle()
+    c.command(H("E080"))
+    c.wtx_fn = lambda card, out, rnd: 2 if rnd == 0 else 0
+    expect("wtx-req", c.command(H("020102")), H("F202"))
+    expect("wtx-rsp", c.command(H("F202")), H("020203"))
+    c.wtx_fn = None
+    # test_recv_more_with_no_error: card chaining 12.. / 13.. / 02.., reader acknowledges with A3, A2
+    c = T4TCard(kind="A", fsci=5, fwi=8, resp_chunk=2)
+    c.responder = lambda apdu: H("010203040506")
+    c.command(H("E080"))
+    expect("pc0", c.command(H("020102")), H("120102"))
+    expect("pc1", c.command(H("A3")), H("130304"))
+    expect("pc1-again", c.command(H("A3")), H("130304"))
+    expect("pc2", c.command(H("A2")), H("020506"))
+    n = len(c.apdu_log)
+    if n != 1:
+        bad.append("executions: %d" % n)
+    return bad
+
+
+if __name__ == "__main__":
+    import sys
+    res = selftest()
+    print("t4t card model self-test:", "ok" if not res else res)
+    sys.exit(1 if res else 0)
